@@ -271,6 +271,19 @@ def prove(prop):
 
 # ------------------------------------------------------------------ running both sides
 
+def _big_stack():
+    """the extracted OCaml code recurses on long lists: lift the stack limit"""
+    import resource
+    try:
+        resource.setrlimit(resource.RLIMIT_STACK, (resource.RLIM_INFINITY, resource.RLIM_INFINITY))
+    except (ValueError, OSError):
+        try:
+            soft, hard = resource.getrlimit(resource.RLIMIT_STACK)
+            resource.setrlimit(resource.RLIMIT_STACK, (hard, hard))
+        except (ValueError, OSError):
+            pass
+
+
 def run_lines(exe, lines, timeout=1800, shards=None, env=None):
     """Feeds case lines to an executable (sharded over the cores), returns its output lines."""
     if not lines:
@@ -279,7 +292,8 @@ def run_lines(exe, lines, timeout=1800, shards=None, env=None):
     chunks = [lines[i::shards] for i in range(shards)]
     procs = []
     for ch in chunks:
-        p = subprocess.Popen([exe], stdin=subprocess.PIPE, stdout=subprocess.PIPE, stderr=subprocess.PIPE, text=True, env=env)
+        p = subprocess.Popen([exe], stdin=subprocess.PIPE, stdout=subprocess.PIPE, stderr=subprocess.PIPE, text=True, env=env,
+                             preexec_fn=_big_stack)
         procs.append((p, ch))
     import threading
     outs = [None] * shards
